@@ -371,6 +371,19 @@ func c08Exec(c c08Case) (keys []string, detail, class string) {
 				keys = append(keys, "C08/accessor/Get-differs")
 			}
 		}
+		// names that differ from a present one in letter case only, or by surrounding blanks, are
+		// absent names
+		for name := range byName {
+			for _, near := range []string{strings.ToUpper(name), strings.ToLower(name), " " + name, name + " "} {
+				if _, present := byName[near]; present {
+					continue
+				}
+				if info.Values.Get(near) != "" || info.Values.GetSize(near) != 0 || len(info.Values.GetAll(near)) != 0 {
+					keys = append(keys, "C08/accessor/absent-name-not-empty")
+					detail += fmt.Sprintf(" | accessors answer for the absent name %q", near)
+				}
+			}
+		}
 		if info.Values.Get("no-such-attribute") != "" || info.Values.GetSize("no-such-attribute") != 0 || len(info.Values.GetAll("no-such-attribute")) != 0 {
 			keys = append(keys, "C08/accessor/absent-name-not-empty")
 		}
